@@ -12,6 +12,18 @@ PROPS = {
         level_note='Assumes A1-A6 of DESIGN 3.5; assumed contracts: legacy_ro (spec function), warnings are no-ops; '
                    'the mathematical lemma "C3 merge of linearizations is a linearization" is not machine-checked.',
     ),
+    'C18': dict(
+        title="Method descriptions mirror the described function's real signature",
+        contracts=['C18_method'], falsifier='C18', modes=['py'], level='proof',
+        level_text='fromFunction (both imlevel values), fromMethod and Element.setTaggedValue are verified from their real '
+                   'bodies against CPython\'s documented code-object layout: positional/required/optional/varargs/kwargs/'
+                   'name/interface/tagged values are exactly those of the statement, for every layout (any number of '
+                   'positional-only, positional, defaulted, keyword-only parameters, *args, **kw). getSignatureInfo / '
+                   'getSignatureString (string rendering) are checked bounded against inspect.signature on all signatures '
+                   'with <=2 parameters per kind.',
+        level_note='Assumes the code-object layout of CPython >= 3.8 (precondition wf), co_flags bits through an uninterpreted '
+                   'bit_and, Method()/Element.__init__ by an assumed constructor contract, PyPy __defaults_count__ branch excluded.',
+    ),
 }
 
 # properties not claimed (kept current; see DESIGN.md section 6)
